@@ -102,10 +102,10 @@ func lockCallKey(cc *ssa.CallCommon) (string, int, bool) {
 }
 
 type guardedAccess struct {
-	instr ssa.Instruction
-	key   string // lock key required
-	what  string // Type.field
-	write bool
+	instr     ssa.Instruction
+	key       string // lock key required
+	what      string // Type.field
+	write     bool
 	ownerRead bool
 }
 
